@@ -30,7 +30,8 @@ Inductive stmt :=
 | SAssignField (x : nat) (k : nat) (e : expr)   (* x.F<k> = e : only that component changes *)
 | SIf (c : expr) (a b : stmt)               (* each branch is a block (own scope) *)
 | SWhile (c : expr) (body : stmt)
-| SFor (x : nat) (t : ity) (lo hi : expr) (body : stmt)   (* for x in lo..hi { body }: hi exclusive, bounds evaluated once *)
+| SFor (x : nat) (t : ity) (lo hi : expr) (incl : bool) (step : expr) (body : stmt)
+   (* for x in lo..hi:step { body } (incl: lo..=hi); lo, hi, step evaluated once, in this order; x advances by step, wrapping at t *)
 | SBreak | SContinue
 | SReturn (e : option expr)
 | SPrint (es : list expr)                   (* io::Println(e1, ..., en) *)
